@@ -76,6 +76,12 @@ pub fn generate(seed: u64, tier: &str, sink: &mut Sink) {
                     HeadOut::Blocked => return Err((format!("send-blocked-{}", tag), "send() waited for bytes after the blank line ending the head".into())),
                     h => return Err((format!("head-{}", tag), format!("send() gave {:?}", h))),
                 }
+                if out.send_ok_waited {
+                    return Err((format!("send-waited-{}", tag), "send() returned Ok but had gone on reading the connection past the blank line ending the head until it would have had to wait".into()));
+                }
+                if let Some(i) = out.ok_read_waited {
+                    return Err((format!("satisfied-read-waited-{}", tag), format!("read #{} was satisfied from bytes that had arrived and still went on reading the connection until it would have had to wait for the peer", i)));
+                }
                 // upper bound for what may be handed out: everything that arrived, decoded leniently
                 let exp = Decoded { payload: payload.clone(), end: End::Truncated };
                 let mut exp2 = exp.clone();
